@@ -3,4 +3,5 @@ pub mod canon;
 pub mod tokrec;
 pub mod model;
 pub mod drive;
+pub mod tee;
 pub mod xmlrec;
